@@ -36,18 +36,19 @@ type call struct {
 }
 
 type cs struct {
-	Props  []string `json:"props"` // staking, pool incentives, developer, community (raw 10^-18 units)
-	Factor string   `json:"factor"`
-	Period int64    `json:"period"`
-	Start  int64    `json:"start"`
-	Recv   []recv   `json:"recv"`
-	Prov   string   `json:"prov"`
-	Last   int64    `json:"last"`
-	Vest   string   `json:"vest"` // balance of the developer vesting account before the first call
-	NA     int      `json:"na"`   // number of distinct receiver addresses observed
-	Distr  []drec   `json:"distr"`
-	Calls  []call   `json:"calls"`
-	Probe  bool     `json:"probe"`
+	Props   []string `json:"props"` // staking, pool incentives, developer, community (raw 10^-18 units)
+	Factor  string   `json:"factor"`
+	Period  int64    `json:"period"`
+	Start   int64    `json:"start"`
+	Recv    []recv   `json:"recv"`
+	Prov    string   `json:"prov"`
+	Last    int64    `json:"last"`
+	Vest    string   `json:"vest"`    // balance of the developer vesting account before the first call
+	PoolPre string   `json:"poolpre"` // optional: balance put into the pool-incentives module account before the first call
+	NA      int      `json:"na"`      // number of distinct receiver addresses observed
+	Distr   []drec   `json:"distr"`
+	Calls   []call   `json:"calls"`
+	Probe   bool     `json:"probe"`
 }
 
 type obs struct {
@@ -183,6 +184,10 @@ func run(t *testing.T, c cs) (o obs) {
 			panic(err)
 		}
 		bk.AddSupplyOffset(ctx, denom, d)
+	}
+
+	if c.PoolPre != "" && c.PoolPre != "0" {
+		h.FundModuleAcc(pitypes.ModuleName, sdk.NewCoins(sdk.NewCoin(denom, intOf(c.PoolPre))))
 	}
 
 	bal := func(c sdk.Context, a sdk.AccAddress) string { return bk.GetBalance(c, a, denom).Amount.String() }
